@@ -322,7 +322,17 @@ func c17Sequential(c *Ctx, i int, r *gen.R) {
 	n := r.Range(3, 30)
 	for k := 0; k < n; k++ {
 		name := ns + string(rune('a'+r.Intn(4)))
-		switch r.Intn(4) {
+		switch r.Intn(5) {
+		case 4:
+			// the same value registered again under the same name (a program's init code run twice): nothing changes,
+			// and nothing may be left behind that a later operation trips over
+			id, ok := model[name]
+			if !ok {
+				continue
+			}
+			decoration.RegisterDecorationName(name, c17Value(id))
+			log = append(log, fmt.Sprintf("Register(%s,%s) [the value it already has]", name, id))
+			c.Rec.Count("registrations_of_the_value_a_name_already_has", 1)
 		case 0, 1:
 			id := fmt.Sprintf("v%d", k)
 			decoration.RegisterDecorationName(name, c17Value(id))
